@@ -58,9 +58,14 @@ fn main() {
             std::process::exit(2);
         }
     };
-    let code = match replay {
+    // a panic of the harness itself (outside the guarded calls into rtcp-types) is harness trouble: exit 2
+    let code = std::panic::catch_unwind(std::panic::AssertUnwindSafe(|| match replay {
         Some(p) => run::replay_file(&check, &p),
         None => run::run_check(&check, tier, run::seed_from_env()),
-    };
+    }))
+    .unwrap_or_else(|_| {
+        eprintln!("the harness itself panicked: exit 2 (not a violation)");
+        2
+    });
     std::process::exit(code);
 }
